@@ -20,8 +20,8 @@ META = dict(
     bounds=dict(
         quick="interest: one MarginLoans loan with symbolic principal, minimum interest, initial balance and elapsed "
               "time (whole seconds up to 10 years; one job with microsecond resolution), interest 7 % per {1 day, 365 days, no period}, interest symbol equal "
-              "to / different from the borrowed symbol (price from {100, 31234.56}); query, repay, repay again, repay "
-              "unknown id; auto-repay: 2 open loans in the symbol an auto-repay limit/market order acquires, symbolic "
+              "to / different from the borrowed symbol (price from {100, 31234.56}); optionally a bar with the other price at the instant of "
+              "inspection; query, repay, repay again, repay unknown id; auto-repay: 2 open loans in the symbol an auto-repay limit/market order acquires, symbolic "
               "principals and balances, one bar; the same with a limit order that trades in part under "
               "VolumeShareImpact (bar volume 4 or 10) and is then cancelled",
         thorough="3 open loans for the auto-repay clause, sub-second elapsed times (microseconds)"),
@@ -35,7 +35,8 @@ META = dict(
     required_covers=["a loan was repaid", "a repayment was refused for lack of funds", "the minimum interest applied",
                      "proportional interest applied", "an auto-repay order repaid a loan",
                      "an auto-repay order could not afford a loan",
-                     "a partially filled auto-repay order was cancelled"],
+                     "a partially filled auto-repay order was cancelled",
+                     "the conversion price moved at the instant of inspection"],
 )
 
 
@@ -83,6 +84,14 @@ def interest(ctx, same_symbol=True, period_days=365, sub_second=False):
     d._last_dt = t1
     info = run(e.get_loan(loan.id))
     out = info.outstanding_interest.get("USD", ZERO)
+    if not same_symbol and ctx.flag("the_price_moves_at_the_instant_the_loan_is_inspected"):
+        # a bar of the borrowed symbol's pair arrives at that very instant with another close: the interest reported
+        # and charged from now on is converted at the new price
+        price = Decimal("31234.56") if price == Decimal("100") else Decimal("100")
+        run(e._on_bar_event(bar.BarEvent(t1, bar.Bar(t1 - DAY, PAIR, price, price, price, price, Decimal(10)))))
+        info = run(e.get_loan(loan.id))
+        out = info.outstanding_interest.get("USD", ZERO)
+        ctx.cover("the conversion price moved at the instant of inspection")
     # reference: pct/100 * principal * elapsed/period, converted at the last close, at least the minimum, truncated
     raw = a * pct / Decimal(100)
     if period_days:
